@@ -6,6 +6,7 @@ import DesyncModel.Tables.FutureDrop
 import DesyncModel.Tables.Push
 import DesyncModel.Tables.Pool
 import DesyncModel.Inv.JobReach
+import DesyncModel.Inv.RunReach
 
 namespace Desync.C03
 open Desync Gen
@@ -87,5 +88,19 @@ list of a queue is strictly increasing (the order of acceptance) -/
 theorem queue_lists_in_acceptance_order {s : State} (hr : Reachable s) {q : Nat} {v : JobQ} (hv : s.qs[q]? = some v) :
     v.jobs.Pairwise (· < ·) :=
   (fullInv_reachable hr).2.ord.sorted q v.jobs (qjobs_of hv)
+
+/-- **No operation is run twice (the "duplicated" half of C03), in every reachable state**: the step that invokes the closure of
+an operation (a `desync` / `sync` / `after` closure, or the closure `Desync::drop` queues) finds that it has not been invoked
+before; and a job whose closure has been invoked is in no queue, so no runner can pick it up again.  (`RunInv`, inductive
+over all program counters: Inv/Run, RunStep, RunReach.  Future operations — `future_desync`, `future_sync` — are polled
+repeatedly by design; their single completion is `C07.result_signalled_at_most_once`.) -/
+theorem closure_runs_at_most_once {s : State} (hr : Reachable s) {a j : Nat} {c : Ctx} {k : Pc} {jb : Job}
+    (hpc : s.pcAt a = .jobStart j c k ∨ s.pcAt a = .jobAwait j c k) (hj : s.jobs[j]? = some jb) (hk : jb.kind.hasBody = true) :
+    jb.begun = false :=
+  closure_invoked_at_most_once hr hpc hj hk
+
+theorem started_closure_job_is_never_requeued {s : State} (hr : Reachable s) {q j : Nat} {v : JobQ} {jb : Job}
+    (hv : s.qs[q]? = some v) (hm : j ∈ v.jobs) (hj : s.jobs[j]? = some jb) (hk : jb.kind.hasBody = true) : jb.begun = false :=
+  ran_job_not_queued hr hv hm hj hk
 
 end Desync.C03
